@@ -17,6 +17,7 @@ Reads(op) == CASE op \in {"create1", "create1json", "reuse1"} -> {"fw"}
                [] op = "cache" -> {"fw"}
                [] op = "encrypt" -> {"fw"}
                [] op \in {"parse", "boot", "sign", "update"} -> {"env"}
+               [] op \in {"cachenv", "cachenv2"} -> {"multi"}
                [] OTHER -> {}
 \* YAML and JSON renderings (and the re-used dictionary) denote the same description
 Canon(op) == IF op \in {"create1json", "reuse1"} THEN "create1" ELSE op
